@@ -133,7 +133,8 @@ DocSeq ==
 StyleSeq == << StdStyle,
                [StdStyle EXCEPT !.q = 34, !.sp = <<32>>, !.paren = "full"],
                [StdStyle EXCEPT !.sp = <<9, 10, 13>>, !.uni = TRUE, !.num = "float"],
-               [StdStyle EXCEPT !.num = "Eneg", !.q = 34] >>
+               [StdStyle EXCEPT !.num = "Eneg", !.q = 34],
+               [StdStyle EXCEPT !.num = "Epos", !.sp = <<32>>] >>      \* integers with an upper-case exponent marker: 1E0
 
 M == INSTANCE EvalMachine WITH Queries <- QuerySet, DocSeq <- DocSeq, Styles <- StyleSeq, Ctx <- Obj(<<>>, <<>>)
 Spec == M!Spec
